@@ -14,6 +14,7 @@ import contextlib
 import multiprocessing as mp
 
 ROOT = os.path.dirname(os.path.dirname(os.path.abspath(__file__)))
+OUT = os.environ.get('VF_OUTDIR') or ROOT  # evidence/ and replays/ go here (mutant runs use a scratch dir)
 NCPU = int(os.environ.get('VF_WORKERS', '0')) or min(16, os.cpu_count() or 1)
 WATCHDOG_S = 30
 
@@ -416,8 +417,8 @@ def run_property(modname, tier, seed_value):
         'wall_s': round(time.time() - t0, 2),
         'violations': len(violations),
     }
-    os.makedirs(os.path.join(ROOT, 'evidence'), exist_ok=True)
-    with open(os.path.join(ROOT, 'evidence', '%s.json' % pid), 'w') as f:
+    os.makedirs(os.path.join(OUT, 'evidence'), exist_ok=True)
+    with open(os.path.join(OUT, 'evidence', '%s.json' % pid), 'w') as f:
         json.dump(ev, f, indent=1, default=repr, ensure_ascii=False)
 
     for fd in still_open:
@@ -444,12 +445,12 @@ def run_property(modname, tier, seed_value):
 
 
 def write_replay(pid, case, sig, detail, seed_value, tier):
-    d = os.path.join(ROOT, 'replays', pid)
+    d = os.path.join(OUT, 'replays', pid)
     os.makedirs(d, exist_ok=True)
     body = {'property': pid, 'signature': sig, 'detail': detail, 'case': case,
             'seed': seed_value, 'tier': tier}
     path = os.path.join('replays', pid, '%s.json' % digest(canon(case) + sig))
-    with open(os.path.join(ROOT, path), 'w') as f:
+    with open(os.path.join(OUT, path), 'w') as f:
         json.dump(body, f, indent=1, default=repr, ensure_ascii=False)
     return path
 
